@@ -263,6 +263,14 @@ def generate(here, repo, name):
         if not os.path.isdir(p):
             raise KaniUnitError("path dependency %s: %s does not exist" % (dn, p))
         deps.append('%s = { path = "%s" }' % (dn, p))
+    # registry dependencies at the exact version the repository's Cargo.lock pins (offline: must be in the local registry cache)
+    registry_deps = cfg.get("registry_deps", {})
+    for dn, spec in registry_deps.items():
+        if isinstance(spec, str):
+            deps.append('%s = "=%s"' % (dn, spec))
+        else:
+            feats = ", ".join('"%s"' % x for x in spec.get("features", []))
+            deps.append('%s = { version = "=%s", default-features = %s, features = [%s] }' % (dn, spec["version"], "true" if spec.get("default_features", True) else "false", feats))
     cargo = ["[package]", 'name = "%s"' % crate, 'version = "0.0.0"', 'edition = "2021"', "publish = false", "", "[lib]", 'path = "src/lib.rs"', "",
              "[dependencies]"] + deps + ["", "[workspace]", "", "[lints.rust]", "unexpected_cfgs = { level = \"allow\", check-cfg = ['cfg(kani)'] }", ""]
     with open(os.path.join(out, "Cargo.toml"), "w") as f:
@@ -270,7 +278,7 @@ def generate(here, repo, name):
     with open(os.path.join(out, ".cargo", "config.toml"), "w") as f:
         f.write("[net]\noffline = true\n")
     lock = os.path.join(out, "Cargo.lock")
-    if path_deps:
+    if path_deps or registry_deps:
         src_lock = os.path.join(repo, "Cargo.lock")
         if not os.path.exists(src_lock):
             raise KaniUnitError("%s missing (needed to pin the path dependencies' own dependencies offline)" % src_lock)
@@ -457,14 +465,15 @@ def run_harness(meta, h, tier):
     return res
 
 
-def run_kani_unit(here, repo, name, tier):
-    """see module docstring; serialised per build directory (two `vx check` of different properties may share a unit)"""
+def run_kani_unit(here, repo, name, tier, only_harnesses=None):
+    """see module docstring; serialised per build directory (two `vx check` of different properties may share a unit).
+    `only_harnesses` (sensitivity runs only): run exactly these harnesses whatever their tier; the result is marked partial."""
     bd = build_dir(here, repo, name)
     os.makedirs(os.path.dirname(bd), exist_ok=True)
     fd = os.open(bd + ".lock", os.O_CREAT | os.O_RDWR, 0o666)
     try:
         fcntl.flock(fd, fcntl.LOCK_EX)
-        return _run_kani_unit(here, repo, name, tier)
+        return _run_kani_unit(here, repo, name, tier, only_harnesses)
     finally:
         try:
             fcntl.flock(fd, fcntl.LOCK_UN)
@@ -472,7 +481,7 @@ def run_kani_unit(here, repo, name, tier):
             os.close(fd)
 
 
-def _run_kani_unit(here, repo, name, tier):
+def _run_kani_unit(here, repo, name, tier, only_harnesses=None):
     t0 = time.time()
     r = {"unit": name, "status": "ok", "undecided_reason": None, "failures": [], "obligations": 0, "discharged": 0, "trusted": [], "samples": [],
          "bounded": [], "cmd": "", "solver_ms": 0, "functions": [], "harnesses": [], "covers": {"expected": 0, "satisfied": 0}}
@@ -498,7 +507,13 @@ def _run_kani_unit(here, repo, name, tier):
     hs = []
     r["tier"] = tier
     r["skipped_in_quick"] = []
+    if only_harnesses:
+        r["partial"] = sorted(only_harnesses)
     for h in cfg.get("harnesses", []):
+        if only_harnesses:
+            if h["name"] in only_harnesses:
+                hs.append(h)
+            continue
         if h.get("tier", "quick") == "thorough" and tier != "thorough":
             # not run, not counted: obligations/discharged/bounded only ever describe harnesses that were executed in this run
             r["skipped_in_quick"].append({"harness": "%s/%s" % (name, h["name"]), "complete": bool(h.get("complete")), "props": h.get("props") or cfg.get("props"),
